@@ -45,3 +45,19 @@ Proof.
       symmetry. rewrite <- (N.mod_small x (2 ^ 32)) by exact Hx.
       apply N.mod_pow2_bits_high. exact H32.
 Qed.
+
+Lemma land_himask_w x n w : n <= w -> x < 2 ^ w ->
+  N.land x (N.shiftl (N.ones (w - n)) n) = (x / 2 ^ n) * 2 ^ n.
+Proof.
+  intros Hn Hx. apply N.bits_inj. intros m.
+  rewrite N.land_spec, <- N.shiftl_mul_pow2, <- N.shiftr_div_pow2.
+  destruct (N.lt_ge_cases m n) as [Hlt|Hge].
+  - rewrite !N.shiftl_spec_low by exact Hlt. apply Bool.andb_false_r.
+  - rewrite !N.shiftl_spec_high' by exact Hge.
+    rewrite N.shiftr_spec'. replace (m - n + n) with m by lia.
+    destruct (N.lt_ge_cases m w) as [H32|H32].
+    + rewrite N.ones_spec_low by lia. apply Bool.andb_true_r.
+    + rewrite N.ones_spec_high by lia. rewrite Bool.andb_false_r.
+      symmetry. rewrite <- (N.mod_small x (2 ^ w)) by exact Hx.
+      apply N.mod_pow2_bits_high. exact H32.
+Qed.
